@@ -24,6 +24,7 @@ FRAMES = {
     'same_except_window_cc': ['window', 'congestion'],
     'same_except_phase': ['phase'],
     'same_except_log': ['packet_log'],
+    'same_except_uplink': ['last_received', 'connected', 'rtt', 'phase', 'last_ack_or_rtt_sample_ms', 'reconnection'],
     'same_except_qc': ['quality_cache'],
     'same_except_timeout': ['conn_timeout_ms'],
     'same_except_gated': ['stall_gated'],
@@ -58,10 +59,11 @@ def build(name, active=None):
     u.use('use vstd::std_specs::cmp::*;')
     u.add(prelude.INT)
     u.add(prelude.FLOAT)
+    import proto
+    proto.add_proto(u)
     u.add(S.STUBS)
 
     # ---------------- constants ----------------
-    u.add(u.consts(P + 'constants.rs'))
     u.add(u.consts(K + 'config_snapshot.rs', skip=('CONN_TIMEOUT_MS',)))
     u.add(u.item(K + 'config_snapshot.rs', 'const', 'CONN_TIMEOUT_MS', post=lambda t: t.replace('srtla_protocol::', '')))
     u.add(u.consts(CONN))
